@@ -538,9 +538,13 @@ class Fn(object):
             if (op == '&&' and pol) or (op == '||' and not pol):
                 return self.norm_atom(v['lhs'], pol) + self.norm_atom(v['rhs'], pol)
             return [(self.key(c), pol)]
-        if k == 'BinaryOperator' and v.get('op') in CMP_MIRROR:
+        if (k == 'BinaryOperator' and v.get('op') in CMP_MIRROR) or \
+                (k == 'CXXOperatorCallExpr' and v.get('op') in CMP_MIRROR and len(v.get('args', [])) == 2):
             op = v['op']
-            l, r = self.key(v['lhs']), self.key(v['rhs'])
+            if k == 'BinaryOperator':
+                l, r = self.key(v['lhs']), self.key(v['rhs'])
+            else:
+                l, r = self.key(v['args'][0]), self.key(v['args'][1])
             # constants to the right
             if l.startswith('#') and not r.startswith('#'):
                 l, r, op = r, l, CMP_MIRROR[op]
@@ -777,3 +781,253 @@ def load(verbose=False):
 def load_single(path, flags=None, extra_args=('--all-headers',)):
     d = extract_file(path, flags, extra_args)
     return FactBase([(path, d)])
+
+
+# ---------------------------------------------------------------------------
+# condition semantics: DNF of atomic facts implied by a branch decision
+
+def implied(fn, cond, pol, depth=0):
+    """DNF (list of conjunctions) of atoms implied by `cond` evaluating to `pol`.
+    atom = ('cmp', lhs_node, op, rhs_node)  comparison that holds
+         | ('b', key, polarity, node)       opaque boolean atom"""
+    c = fn.strip(cond)
+    v = fn.nodes.get(c, {})
+    k = v.get('k')
+    if k == 'UnaryOperator' and v.get('op') == '!':
+        return implied(fn, v['ch'][0], not pol, depth + 1)
+    if k == 'BinaryOperator' and v.get('op') in LOGICAL:
+        a = implied(fn, v['lhs'], pol, depth + 1)
+        b = implied(fn, v['rhs'], pol, depth + 1)
+        conj = (v['op'] == '&&') == pol     # && true / || false => conjunction
+        if conj:
+            return [x + y for x in a for y in b]
+        return a + b
+    if k in ('ConditionalOperator',):
+        ct = implied(fn, v['cond'], True, depth + 1)
+        cf = implied(fn, v['cond'], False, depth + 1)
+        x = implied(fn, v['then'], pol, depth + 1)
+        y = implied(fn, v['else'], pol, depth + 1)
+        return [p + q for p in ct for q in x] + [p + q for p in cf for q in y]
+    if k == 'BinaryOperator' and v.get('op') in CMP_MIRROR:
+        op = v['op'] if pol else CMP_NEG[v['op']]
+        return [[('cmp', v['lhs'], op, v['rhs'])]]
+    if k == 'CXXOperatorCallExpr' and v.get('op') in CMP_MIRROR and len(v.get('args', [])) == 2:
+        op = v['op'] if pol else CMP_NEG[v['op']]
+        return [[('cmp', v['args'][0], op, v['args'][1])]]
+    if k == 'CXXOperatorCallExpr' and v.get('op') == '!' and len(v.get('args', [])) == 1:
+        return [[('b', fn.key(v['args'][0]), not pol, v['args'][0])]]
+    if 'v' in v and k not in ('CallExpr', 'CXXMemberCallExpr'):
+        # constant condition
+        truth = bool(v['v'])
+        return [[]] if truth == pol else []
+    return [[('b', fn.key(c), pol, c)]]
+
+
+def atom_key(fn, a):
+    """(key, polarity) of an atom, comparisons canonicalised (constants right, != as negated ==, > as mirrored <)"""
+    if a[0] == 'b':
+        return a[1], a[2]
+    _, l, op, r = a
+    lk, rk = fn.key(l), fn.key(r)
+    if lk.startswith('#') and not rk.startswith('#'):
+        lk, rk, op = rk, lk, CMP_MIRROR[op]
+    if op == '!=':
+        return '(%s == %s)' % (lk, rk), False
+    if op == '>=':
+        return '(%s < %s)' % (lk, rk), False
+    if op == '>':
+        return '(%s <= %s)' % (lk, rk), False
+    return '(%s %s %s)' % (lk, op, rk), True
+
+
+class Explorer(object):
+    """Path exploration of one function's CFG with a small finite abstract state (DESIGN A1(iii)/A3).
+
+    The state is (valuation, user) where valuation is a frozenset of (atom key, polarity) for *correlated* pure
+    atoms (atoms tested in more than one block whose operands are not written in between - writes kill them) and
+    user is a hashable client state updated by on_edge / on_elem callbacks.  A path that would need an atom to be
+    both true and false is not followed."""
+
+    def __init__(self, fn, on_elem=None, on_edge=None, correlate=True):
+        self.fn = fn
+        self.on_elem = on_elem
+        self.on_edge = on_edge
+        self.corr = self._correlated() if correlate else set()
+        self._writes = None
+
+    def _correlated(self):
+        fn = self.fn
+        cnt = {}
+        for b in fn.blocks.values():
+            if b.cond is None or b.tk == 'SwitchStmt':
+                continue
+            c = fn.effective_cond(b.id)
+            for pol in (True,):
+                for conj in implied(fn, c, pol):
+                    for a in conj:
+                        if not self._pure(a):
+                            continue
+                        k = atom_key(fn, a)[0]
+                        cnt.setdefault(k, set()).add(b.id)
+        return set(k for k, bs in cnt.items() if len(bs) >= 2)
+
+    def _pure(self, a):
+        """an atom may be correlated only if it contains no call other than const member calls"""
+        fn = self.fn
+        roots = [a[3]] if a[0] == 'b' else [a[1], a[3]]
+        for r in roots:
+            for x in fn.walk(r):
+                v = fn.nodes[x]
+                if v['k'] in ('CallExpr', 'CXXOperatorCallExpr', 'CXXConstructExpr', 'CXXNewExpr'):
+                    return False
+                if v['k'] == 'CXXMemberCallExpr' and not v.get('sig', '').endswith(' const'):
+                    return False
+                if v['k'] == 'UnaryOperator' and v.get('op') in ('++', '--'):
+                    return False
+                if v['k'] in ('BinaryOperator', 'CompoundAssignOperator') and v.get('op', '').endswith('=') and \
+                        v['op'] not in ('==', '!=', '<=', '>='):
+                    return False
+        return True
+
+    def _elem_kills(self, nid):
+        """names written by element nid"""
+        fn = self.fn
+        v = fn.nodes[nid]
+        k = v['k']
+        out = []
+        if k in ('BinaryOperator', 'CompoundAssignOperator') and v.get('op', '').endswith('=') and \
+                v['op'] not in ('==', '!=', '<=', '>='):
+            out.append(fn.key(v['lhs']))
+        elif k == 'UnaryOperator' and v.get('op') in ('++', '--'):
+            out.append(fn.key(v['ch'][0]))
+        elif k == 'DeclStmt':
+            for d in v.get('decls', []):
+                out.append(d['name'])
+        elif k == 'CXXMemberCallExpr':
+            sig = v.get('sig', '')
+            obj = v.get('obj')
+            if not sig.endswith(' const') and obj is not None:
+                ok = fn.key(obj)
+                out.append(ok)
+        elif k == 'CXXOperatorCallExpr' and v.get('op') in ('=', '+=', '-=', '|=', '&=', '<<=', '>>=', '++', '--') \
+                and v.get('args'):
+            out.append(fn.key(v['args'][0]))
+        elif k == 'CallExpr':
+            # out-parameters passed by address
+            for a in v.get('args', []):
+                s = fn.strip(a)
+                sv = fn.nodes.get(s, {})
+                if sv.get('k') == 'UnaryOperator' and sv.get('op') == '&':
+                    out.append(fn.key(sv['ch'][0]))
+        return out
+
+    @staticmethod
+    def _mentions(key, name):
+        if not name:
+            return False
+        i = key.find(name)
+        while i >= 0:
+            before = key[i - 1] if i > 0 else ' '
+            after = key[i + len(name)] if i + len(name) < len(key) else ' '
+            if not (before.isalnum() or before == '_') and not (after.isalnum() or after == '_'):
+                return True
+            i = key.find(name, i + 1)
+        return False
+
+    def edge_facts(self, b, idx, val):
+        """DNF of the decision (b, idx) pruned by valuation; None if infeasible"""
+        fn = self.fn
+        blk = fn.blocks[b]
+        if blk.cond is None or blk.tk == 'SwitchStmt' or len(blk.succs) != 2:
+            return [[]]
+        c = fn.effective_cond(b)
+        dnf = implied(fn, c, idx == 0)
+        vd = dict(val)
+        out = []
+        for conj in dnf:
+            okc = True
+            for a in conj:
+                k, p = atom_key(fn, a)
+                if k in vd and vd[k] != p:
+                    okc = False
+                    break
+            if okc:
+                out.append(conj)
+        if not out:
+            return None
+        return out
+
+    def run(self, start, start_idx, init_user, stop=None, max_states=200000):
+        """explore from point (start, start_idx). Calls on_elem(user, nid)->user for each element in order and
+        on_edge(user, b, idx, dnf)->user|None for each taken edge. `stop(nid, user)` may return True to end a path at
+        an element (after on_elem).  Yields nothing; results are collected by the callbacks (closure state).
+        Returns number of abstract states visited."""
+        fn = self.fn
+        seen = set()
+        stack = [(start, start_idx, frozenset(), init_user, ((start, None),))]
+        n = 0
+        while stack:
+            b, i0, val, user, path = stack.pop()
+            st = (b, i0, val, user)
+            if st in seen:
+                continue
+            seen.add(st)
+            n += 1
+            if n > max_states:
+                raise AnalysisBroken('state explosion in %s' % fn.name)
+            blk = fn.blocks[b]
+            ended = False
+            for i in range(i0, len(blk.elems)):
+                e = blk.elems[i]
+                kills = self._elem_kills(e)
+                if kills and val:
+                    val = frozenset((k, p) for (k, p) in val if not any(self._mentions(k, nm) for nm in kills))
+                if self.on_elem:
+                    user = self.on_elem(user, e, path)
+                    if user is None:
+                        ended = True
+                        break
+                if stop and stop(e, user):
+                    ended = True
+                    break
+            if ended:
+                continue
+            for j, s in enumerate(blk.succs):
+                if s is None:
+                    continue
+                dnf = self.edge_facts(b, j, val)
+                if dnf is None:
+                    continue
+                nval = val
+                if len(dnf) == 1:
+                    add = []
+                    for a in dnf[0]:
+                        k, p = atom_key(fn, a)
+                        if k in self.corr:
+                            add.append((k, p))
+                    if add:
+                        nval = frozenset(set(val) | set(add))
+                nuser = user
+                if self.on_edge:
+                    nuser = self.on_edge(user, b, j, dnf)
+                    if nuser is None:
+                        continue
+                stack.append((s, 0, nval, nuser, path + ((s, j),)))
+        return n
+
+    def describe_path(self, path):
+        fn = self.fn
+        out = []
+        prev = None
+        for (b, j) in path:
+            if prev is not None and j is not None:
+                blk = fn.blocks[prev]
+                if blk.cond is not None and len([s for s in blk.succs]) >= 2:
+                    c = fn.effective_cond(prev)
+                    if blk.tk == 'SwitchStmt':
+                        lab = fn.blocks[b].label or {}
+                        out.append('L%d: switch -> %s' % (fn.line_of(c), lab.get('name', lab.get('kind', '?'))))
+                    else:
+                        out.append('L%d: [%s] is %s' % (fn.line_of(c), fn.text(c), 'true' if j == 0 else 'false'))
+            prev = b
+        return out
